@@ -37,7 +37,7 @@ pub const JJ_OPS: &[&str] = &[
     "assign", "add", "double", "negate", "msm", "msm_bounded", "mul_by_constant", "from_coordinates", "is_equal", "select",
     "assert_equal", "assert_not_equal", "is_zero",
 ];
-pub const FC_OPS: &[&str] = &["assign", "add", "double", "negate", "from_coordinates", "is_equal", "select", "mul_by_constant"];
+pub const FC_OPS: &[&str] = &["assign", "add", "double", "negate", "from_coordinates", "is_equal", "select", "mul_by_constant", "msm", "msm_bounded"];
 
 pub fn jj_ops() -> Vec<String> {
     JJ_OPS.iter().map(|o| format!("ec.jj.{o}")).collect()
@@ -162,9 +162,15 @@ pub fn gen_case(rng: &mut Prng, op: &str) -> OpCase {
             // n points then n scalars
             let mut pts = vec![];
             let mut scs = vec![];
+            let mut prev: Option<BigUint> = None;
             for i in 0..n {
+                // consecutive bases are related (equal, opposite, identity) as often as not
                 let (a, b) = pair(rng);
-                pts.push(if i % 2 == 0 { a } else { b });
+                let pt = if i % 2 == 0 { a } else { prev.take().unwrap_or(b.clone()) };
+                if i % 2 == 0 {
+                    prev = Some(b);
+                }
+                pts.push(pt);
                 let s = scalar_class(rng, &order);
                 if parts[2] == "msm_bounded" {
                     let bits = *rng.pick(&[1u64, 8, 64, 128, 200]);
@@ -173,6 +179,26 @@ pub fn gen_case(rng: &mut Prng, op: &str) -> OpCase {
                 } else {
                     scs.push(s);
                 }
+            }
+            // foreign msm de-duplicates terms that share a scalar or a base *variable* and
+            // treats a scalar fixed to one apart: mode 1 shares the scalar variable of terms
+            // 0 and 1, mode 2 their base variable, mode 3 fixes scalar 0 to the constant one
+            if parts[1] != "jj" {
+                let mode = if n >= 2 { rng.below(4) } else { *rng.pick(&[0u64, 3]) };
+                match mode {
+                    1 => {
+                        scs[1] = scs[0].clone();
+                        if parts[2] == "msm_bounded" {
+                            p[2] = p[1];
+                        }
+                    }
+                    2 => pts[1] = pts[0].clone(),
+                    3 => {
+                        scs[0] = BigUint::one();
+                    }
+                    _ => {}
+                }
+                big.push(format!("{mode:x}"));
             }
             bins = pts.into_iter().chain(scs).collect();
         }
@@ -312,10 +338,24 @@ where
     if let Some(b) = &bit {
         publish(s, l, &[b.clone().into()])?;
     }
-    let n_pts = if op == "from_coordinates" { 0 } else { wb.len() };
-    let mut pts = vec![];
-    for v in &wb[..n_pts] {
-        pts.push(chip.assign(l, v.clone().map(|k| pt(&k)))?);
+    let is_msm = op == "msm" || op == "msm_bounded";
+    let mode = if is_msm { c.bigp(0).to_u64_digits().first().copied().unwrap_or(0) } else { 0 };
+    let n_pts = if op == "from_coordinates" {
+        0
+    } else if is_msm {
+        c.p[0] as usize
+    } else {
+        wb.len()
+    };
+    let mut pts: Vec<midnight_circuits::ecc::foreign::AssignedForeignPoint<F, C, MEP>> = vec![];
+    for (i, v) in wb[..n_pts].iter().enumerate() {
+        if mode == 2 && i == 1 {
+            // the same variable as base 0
+            let first = pts[0].clone();
+            pts.push(first);
+        } else {
+            pts.push(chip.assign(l, v.clone().map(|k| pt(&k)))?);
+        }
     }
     for p in &pts {
         let v = chip.as_public_input(l, p)?;
@@ -328,6 +368,29 @@ where
         "negate" => Some(chip.negate(l, &pts[0])?),
         "select" => Some(chip.select(l, bit.as_ref().unwrap(), &pts[0], &pts[1])?),
         "mul_by_constant" => Some(chip.mul_by_constant(l, sc(&c.bigp(0)), &pts[0])?),
+        "msm" | "msm_bounded" => {
+            let sf = chip.scalar_field_chip();
+            let mut scs: Vec<SC::Scalar> = vec![];
+            for (i, v) in wb[n_pts..].iter().enumerate() {
+                if mode == 1 && i == 1 {
+                    scs.push(scs[0].clone());
+                } else if mode == 3 && i == 0 {
+                    scs.push(sf.assign_fixed(l, C::ScalarField::ONE)?);
+                } else {
+                    scs.push(sf.assign(l, v.clone().map(|k| sc(&k)))?);
+                }
+            }
+            for x in &scs {
+                let v = sf.as_public_input(l, x)?;
+                publish(s, l, &v)?;
+            }
+            Some(if op == "msm" {
+                chip.msm(l, &scs, &pts)?
+            } else {
+                let bounded: Vec<(SC::Scalar, usize)> = scs.iter().enumerate().map(|(i, x)| (x.clone(), c.p[1 + i] as usize)).collect();
+                chip.msm_by_bounded_scalars(l, &bounded, &pts)?
+            })
+        }
         "is_equal" => {
             let b = chip.is_equal(l, &pts[0], &pts[1])?;
             publish(s, l, &[b.into()])?;
@@ -561,12 +624,38 @@ pub fn check(c: &OpCase, publics: &[Fq]) -> Result<bool, String> {
     if op == "select" && sel.is_none() {
         return Ok(false);
     }
+    let is_msm = op == "msm" || op == "msm_bounded";
+    let n_pts = if is_msm { c.p[0] as usize } else { rest.len() };
     let mut pts = vec![];
-    for g in rest {
+    for g in &rest[..n_pts.min(rest.len())] {
         match dec_fp(g, curve) {
             Ok(p) => pts.push(p),
             Err(_) => return Ok(false),
         }
+    }
+    if is_msm {
+        let (_, order) = weier(curve);
+        let mut acc = None;
+        for (i, g) in rest[n_pts..].iter().enumerate() {
+            // secp256k1 scalars are emulated field elements, BLS12-381 scalars are native
+            let k = if curve == "k256" {
+                match crate::ops_ff::decode_field(g, "k256q") {
+                    Ok(k) => k,
+                    Err(_) => return Ok(false),
+                }
+            } else {
+                if g.len() != 1 {
+                    return Err("scalar exposure is not one value".into());
+                }
+                fq_to_big(&g[0])
+            };
+            if op == "msm_bounded" && k.bits() > c.p[1 + i] {
+                // the bound is a precondition of the caller: nothing is specified outside it
+                return Ok(true);
+            }
+            acc = w.add(&acc, &w.mul(&(k % &order), &pts[i]));
+        }
+        return outp(0, acc);
     }
     match op {
         "assign" => Ok(true),
